@@ -57,6 +57,7 @@ func checkC19(c *Ctx) {
 	c19TextWriter(c)
 	c19IteratorMarks(c)
 	c19ScopeMarks(c)
+	c19UserfuncMarks(c)
 	c.NotCovered("leaks through go-cty conversion error texts and through application-supplied function errors (trusted / out of scope by the property's last sentence)")
 	c.NotCovered("boolean facts and lengths revealed by a message (\"value is null\", \"tuple with 3 elements\") are not string or number content")
 	c.Trust("error values and err.Error() are clean: go-cty v1.16.3 conversion errors name types and target attribute names, never values (two marginal exceptions: the 'use lowercase \"true\"' hint and MismatchMessage source attribute names)")
@@ -416,4 +417,60 @@ func strippedCopy(v ssa.Value, seen map[ssa.Value]bool, d int) *ssa.Call {
 		}
 	}
 	return nil
+}
+
+// userfunc.marks: a function defined in configuration sees its arguments with their marks.
+func c19UserfuncMarks(c *Ctx) {
+	c.Rule("userfunc.marks: every function.Parameter that ext/userfunc builds for a function defined in configuration (fixed and variadic parameters) sets AllowMarked: the body is an HCL expression evaluated by this module, whose diagnostics become the text of the call's error (\"Call to function … failed: …\"); cty hands a parameter without AllowMarked the argument stripped of its marks, so those diagnostics would quote the content of a marked argument as if it were public")
+	n := 0
+	for _, fn := range c.P.pkgFuncs(c.Scope("ext/userfunc")...) {
+		type lit struct {
+			pos     token.Pos
+			allowed bool
+		}
+		lits := map[ssa.Value]*lit{}
+		for _, b := range fn.Blocks {
+			for _, ins := range b.Instrs {
+				st, ok := ins.(*ssa.Store)
+				if !ok {
+					continue
+				}
+				fa, ok := st.Addr.(*ssa.FieldAddr)
+				if !ok || !isNamed(fa.X.Type(), ctyPath+"/function", "Parameter") {
+					continue
+				}
+				fv := fieldVarOf(fa.X.Type(), fa.Field)
+				if fv == nil {
+					continue
+				}
+				l := lits[fa.X]
+				if l == nil {
+					l = &lit{pos: st.Pos()}
+					lits[fa.X] = l
+				}
+				if fv.Name() == "AllowMarked" {
+					if cn, ok := st.Val.(*ssa.Const); ok && cn.Value != nil && cn.Value.String() == "true" {
+						l.allowed = true
+					}
+				}
+			}
+		}
+		k := 0
+		var keys []ssa.Value
+		for v := range lits {
+			keys = append(keys, v)
+		}
+		sort.Slice(keys, func(i, j int) bool { return lits[keys[i]].pos < lits[keys[j]].pos })
+		for _, v := range keys {
+			l := lits[v]
+			n++
+			k++
+			c.Sites++
+			c.Fn(FuncName(fn))
+			key := fmt.Sprintf("%s:parameter#%d", FuncName(fn), k)
+			c.Check(l.allowed, "userfunc.marks", key, l.pos, "AllowMarked",
+				"this parameter of a configuration-defined function does not allow marked values: cty strips the marks before the body is evaluated, and an error diagnostic of the body (duplicate key, invalid index, …) then quotes the argument in the call's error message")
+		}
+	}
+	c.Floor("userfunc.marks parameters", n, 2, "the fixed parameters and the variadic parameter of decodeUserFunctions")
 }
